@@ -1,4 +1,5 @@
 import Votca.Model.C06
+import Votca.Model.C18
 import Votca.Model.C06F
 /-! line-protocol handlers for C06 (core only) -/
 namespace Driver.C06
@@ -27,7 +28,7 @@ def handleImc (args : List String) : Verdict :=
     let b ← many rat n
     let xs ← many rat n
     let nr ← nat
-    let ranges ← many (do let a ← nat; let c ← nat; pure (a, c)) nr
+    let exprs ← many tok nr
     let status ← tok
     let nt ← nat
     let tabs ← many (do let k ← nat; let rows ← nat; let vals ← many rat (2 * rows); pure (k, vals)) nt
@@ -36,14 +37,24 @@ def handleImc (args : List String) : Verdict :=
     let sym := A == transpose A
     let tag := s!"imc-{if sym then "sym" else "nonsym"}-n{if n ≤ 2 then "small" else "big"}-{nr}tables"
     if status != "ok" then pure { agree := false, msg := "csg_imc_solve failed: " ++ status, tag := "imc-error" } else
-    -- the written tables, in index order
-    let xsOut := tabs.flatMap fun (_, vals) => (List.range (vals.length / 2)).map fun i => vals.getD (2 * i) 0
-    let ysOut := tabs.flatMap fun (_, vals) => (List.range (vals.length / 2)).map fun i => vals.getD (2 * i + 1) 0
-    let splitOk := consecutive 1 ranges && tabs.length == nr && extra == 0 &&
-      (tabs.map fun (_, vals) => vals.length / 2) == (splitByIndex ranges xs).map List.length &&
-      (xsOut.zip xs).all fun (a, c) => absRat (a - c) ≤ absRat c / 10 ^ 8
-    if !splitOk || ysOut.length != n then
-      pure { agree := false, propOk := false, msg := s!"IMC-SPLIT tables do not partition x by the index ranges (tables {tabs.length} of {nr}, extra {extra})", tag := tag } else
+    -- the index file: every expression parsed and enumerated by the RangeParser model (C18), the rows it denotes in its order
+    let idxs? := exprs.map fun h => ((Votca.unhex h).bind Votca.C18.parse).map fun bs => (Votca.C18.denote bs).map Int.toNat
+    if idxs?.any Option.isNone then pure { agree := false, msg := "bad-line index expression", tag := "bad" } else
+    let idxs : List (List Nat) := idxs?.map fun o => o.getD []
+    if !isPartition n idxs then pure { agree := false, msg := "bad-line index expressions do not partition the rows", tag := "bad" } else
+    let contiguous := idxs.all fun l => (l.zip (l.drop 1)).all fun (a, c) => c == a + 1
+    let tag := tag ++ (if contiguous then "" else "-noncontiguous")
+    -- table k must hold exactly the rows its expression denotes: the grid column says which rows were written
+    let tabX := tabs.map fun (_, vals) => (List.range (vals.length / 2)).map fun i => vals.getD (2 * i) 0
+    let tabY := tabs.map fun (_, vals) => (List.range (vals.length / 2)).map fun i => vals.getD (2 * i + 1) 0
+    let splitOk := tabs.length == nr && extra == 0 &&
+      (tabX.zip idxs).all fun (tx, idx) =>
+        tx.length == idx.length && ((tx.zip (selectRows idx xs)).all fun (a, c) => absRat (a - c) ≤ absRat c / 10 ^ 8)
+    if !splitOk then
+      pure { agree := false, propOk := false, msg := s!"IMC-SPLIT table rows are not the rows the index expressions denote (tables {tabs.length} of {nr}, extra {extra}, expected rows {idxs})", tag := tag } else
+    -- the solution vector in row order, gathered from the tables through the index lists
+    let pairs := (idxs.zip tabY).flatMap fun (idx, ys) => idx.zip ys
+    let ysOut : List Rat := (List.range n).map fun i => ((pairs.find? fun (j, _) => j == i + 1).map (·.2)).getD 0
     -- property: the written x solves the regularised normal equations of the FILE's matrix
     let res := normalResidual A b r ysOut
     let At := transpose A
